@@ -699,10 +699,11 @@ pub fn plan(tier: &str) -> Plan {
             }
         }
     }
+    units.extend(crate::nodes::c19_limit_units(thorough));
     Plan {
         property: "C19",
         units,
-        rule: "exhaustive enumeration over real decoding code: every byte stream up to the stated length over a boundary alphabet through the real frame reader (declared lengths at and around the limit, reads counted), every fragmentation of valid streams with a Pending before each read, every argument byte string up to the stated length (plus length-prefix boundary shapes) through the decoders generated by #[derive(RactorClusterMessage)], encode/decode round trips of every BytesConvertable type over boundary values, job metadata strings; plus schedule-explored runs of real Send and thread-local actors receiving undecodable payloads. A case is non-trivial when it gets past the trivial prefix (>= 8 header/argument bytes, or a fragmented stream)".into(),
+        rule: "exhaustive enumeration over real decoding code: every byte stream up to the stated length over a boundary alphabet through the real frame reader (declared lengths at and around the limit, reads counted), every fragmentation of valid streams with a Pending before each read, every argument byte string up to the stated length (plus length-prefix boundary shapes) through the decoders generated by #[derive(RactorClusterMessage)], encode/decode round trips of every BytesConvertable type over boundary values, job metadata strings; plus schedule-explored runs of real Send and thread-local actors receiving undecodable payloads, and of real NodeServer sessions (configured with a 64-byte inbound limit, both connection directions, before and inside the handshake) that are sent only a frame header declaring a length at, just above and far above the limit. A case is non-trivial when it gets past the trivial prefix (>= 8 header/argument bytes, or a fragmented stream)".into(),
         assumptions: vec![
             "byte strings are bounded in length and drawn from alphabets chosen from the branch conditions of the decoders (0, 1, field-size, 0x7f/0x80, 0xff)".into(),
             "prost's protobuf decoder is trusted beyond totality on these inputs".into(),
